@@ -49,6 +49,9 @@ Definition nat_of_sx (x : sx) : nat := N.to_nat (n_of_str (sx_str x)).
 Definition res_of_sx {T} (f : sx -> T) (x : sx) : res T :=
   match x with L [y] => Ok (f y) | _ => Raise end.
 
+Definition fixes_of_sx (x : sx) : fixes :=
+  {| fx_guard := sx_bool (sx_nth 0 x); fx_tpstr := sx_bool (sx_nth 1 x); fx_oneline := sx_bool (sx_nth 2 x) |}.
+
 Definition wres_of_sx (x : sx) : wres :=
   let s := sx_str x in
   if str_eqb s $"ok" then WOk else if str_eqb s $"nodir" then WNoDir else if str_eqb s $"noopen" then WNoOpen
@@ -127,7 +130,7 @@ Section Orc.
       let p := get_cache_path base (json_of_sx (a 2%nat)) in
       Some (L [A (cache_dir base); sx_opt A p; sx_opt A (option_map (tmp_of (sx_str (a 1%nat))) p)])
     else if is_cmd cmd "sl_history" then
-      (* base files invocations (each: tag pid inp? age fs) *)
+      (* base files invocations (each: tag pid inp? age fs sesc) fixes=(guard tpstr oneline) *)
       let base := sx_str (a 0%nat) in
       let f0 : files := fun p => (fix look (l : list sx) : option str :=
                                     match l with
@@ -135,19 +138,19 @@ Section Orc.
                                     | L [A k; A v] :: r => if str_eqb k p then Some v else look r
                                     | _ :: r => look r
                                     end) (sx_list (a 1%nat)) in
-      Some (L (map sx_of_outcome (history base f0 (map mk_invocation (sx_list (a 2%nat))))))
+      Some (L (map sx_of_outcome (history (fixes_of_sx (a 3%nat)) base f0 (map mk_invocation (sx_list (a 2%nat))))))
     else if is_cmd cmd "sl_run" then
-      (* base guarded invocation: a single run against explicit file oracles (age/read/fs queries) *)
+      (* base fixes=(guard tpstr oneline) invocation: a single run against explicit file oracles (age/read/fs queries) *)
       let base := sx_str (a 0%nat) in
       let i := mk_invocation (a 2%nat) in
       let tag := sx_nth 0 (a 2%nat) in
       Some (sx_of_outcome
-              (sl_main base (i_pid i) (i_sesc i) (i_repr i) (i_configured i) (i_branch i) (i_changes i) (i_transcript i) (i_pct i)
+              (sl_main base (i_pid i) (i_sesc i) (fixes_of_sx (a 1%nat)) (i_repr i) (i_configured i) (i_branch i) (i_changes i) (i_transcript i) (i_pct i)
                    (i_mcp_local i) (i_mcp_cache i)
                    (fun p => res_of_sx (fun y => z_of_str (sx_str y)) (orc (q "age" [tag; A p])))
                    (fun p => res_of_sx sx_str (orc (q "read" [tag; A p])))
                    (fun t p => wres_of_sx (orc (q "fs" [tag; A t; A p])))
-                   (sx_bool (a 1%nat)) (i_inp i)))
+                   (i_inp i)))
     else if is_cmd cmd "sl_exec" then
       (* variant c0? events nreaders -> () if some event is not enabled, else ((final?) (reader states) (produced)) *)
       match exec (variant_of_sx (a 0%nat)) (init (opt_of_sx sx_str (a 1%nat))) (map ev_of_sx (sx_list (a 2%nat))) with
